@@ -278,15 +278,13 @@ func runC17Protocol(c *Ctx) {
 	rng := NewRng(c.Seed + 5)
 	n := c.Budget(48, 900)
 	mgr := datasource.GetDataSourceManager(branch.BranchTypeXA)
-	// the explicit-transaction cases (an open known finding that leaves the connection inside an XA
-	// branch for good) run last so that they cannot disturb the others
-	nExplicit := n / 5
+	// every fifth case runs its statement in an explicit local transaction (BeginTx / Exec / Commit)
 	for i := 0; i < n; i++ {
 		r := rng.Fork()
 		cid := fmt.Sprintf("c17-p%d", i)
 		fault := c17Faults[i%len(c17Faults)]
 		commit := r.Bool()
-		explicit := i >= n-nExplicit
+		explicit := i%5 == 4
 		forget := fault == "none" && r.Chance(30) // phase two reaches a process that does not hold the connection
 		cs := genATCase(r, w, cid, ATGenOpts{})
 		if len(cs.Rows) < 2 {
@@ -552,9 +550,7 @@ func runC17Protocol(c *Ctx) {
 		}
 		c.Out.Oracle(cid, class == "", class, fmt.Sprintf("%s | fault=%s p2=%s explicit=%v forget=%v | %s", detail, fault, p2, explicit, forget, obs))
 		tag := "nontrivial=1"
-		if explicit {
-			tag += " known=xa_explicit_transaction_never_prepared"
-		}
+
 		c.Out.Tag(cid, tag)
 		c.Out.Count("fault." + fault)
 		c.Out.Count(fmt.Sprintf("explicit=%v", explicit))
